@@ -216,11 +216,20 @@ class Engine:
             s.set('timeout', timeout_ms)
             s.set('smt.mbqi', False)
         else:
-            s.set('timeout', min(self.timeout_ms, 15000))
+            # a function in which several queries already went undecided (typically mutated code far from its contract) is
+            # finished with short budgets: its verdict is "undecided" anyway and the stand-in decides
+            tired = getattr(self, 'unknown_count', 0) >= 4
+            s.set('timeout', 4000 if tired else min(self.timeout_ms, 15000))
         for a in st.pc:
             s.add(a)
         s.add(z3.Not(goal))
         r = s.check()
+        if r == z3.unknown and timeout_ms is None and getattr(self, 'unknown_count', 0) >= 4:
+            self.unknown_count += 1
+            dt = time.time() - t0
+            self.solver_time += dt
+            self.queries += 1
+            return 'open', 'budget exhausted for this function (several earlier queries undecided)'
         if r == z3.unknown and timeout_ms is None:
             # portfolio: z3's search is erratic (heavy-tailed) on queries with recursive functions and quantifier
             # alternation -- the same query is decided in 0.2 s in one process and not in 300 s in another, or in
@@ -275,6 +284,8 @@ class Engine:
             if ok:
                 self.used_cvc5 = ver
                 return 'discharged', ''
+        if r != z3.sat and timeout_ms is None:
+            self.unknown_count = getattr(self, 'unknown_count', 0) + 1
         if r == z3.sat:
             try:
                 m = s.model()
